@@ -3,6 +3,9 @@
 -/
 import AisVerif.Lemmas.Sentence
 import AisVerif.Lemmas.Inv
+import AisVerif.Lemmas.CleanSentence
+import AisVerif.Lemmas.Unarmor
+import AisVerif.Lemmas.Machine
 
 namespace AisVerif.C02
 open AisVerif Spec
@@ -56,5 +59,115 @@ theorem mismatch_is_checksum_error (cfg : Cfg) (st : PState) (line raw : Bytes) 
   simp only []
   unfold checkChecksum
   rw [if_pos hne]
+
+/-! ### If the values agree the line is never rejected with a checksum error -/
+
+theorem unarmor_not_cks (cfg : Cfg) (data : Bytes) (fill a b : Nat) (hf : fill ≤ 5) :
+    unarmor cfg data fill ≠ err (.checksum a b) := by
+  intro h
+  by_cases hsz : TooLarge cfg data.length
+  · rw [unarmor_err_large cfg data fill hsz] at h; cases h
+  · by_cases hall : AllArmored data
+    · obtain ⟨out, ho, _⟩ := unarmor_ok cfg data fill hf hall hsz
+      rw [ho] at h; cases h
+    · rw [unarmor_err_invalid cfg data fill hall hsz] at h; cases h
+
+theorem decodeInto_not_cks (cfg : Cfg) (dec : Bool) (s : Sentence) (a b : Nat) (hf : s.fill_bit_count ≤ 5) :
+    decodeInto cfg dec s ≠ err (.checksum a b) := by
+  unfold decodeInto
+  cases dec with
+  | false => simp
+  | true =>
+    simp only [if_true]
+    cases hu : unarmor cfg s.data s.fill_bit_count with
+    | err e => intro h; cases h; exact unarmor_not_cks cfg _ _ a b hf hu
+    | panic p => intro h; cases h
+    | ok un =>
+      simp only [Res.ok_bind]
+      cases hm : parseMessage cfg un with
+      | err e =>
+        intro h; cases h
+        rw [parseMessage_eq] at hm
+        exact (decode_clean cfg un).2 a b hm
+      | panic p => intro h; cases h
+      | ok m => intro h; cases h
+
+theorem verify_not_cks (cfg : Cfg) (st : PState) (s : Sentence) (a b : Nat) :
+    (verifyAndExtend cfg st s).2 ≠ err (.checksum a b) := by
+  unfold verifyAndExtend
+  repeat' split
+  all_goals (intro h; cases h)
+
+theorem stepSentence_not_cks (cfg : Cfg) (st : PState) (s : Sentence) (dec : Bool) (a b : Nat)
+    (hf : s.fill_bit_count ≤ 5) : (stepSentence cfg st s dec).2 ≠ err (.checksum a b) := by
+  unfold stepSentence
+  by_cases hm : s.hasMore = true
+  · simp only [hm, if_true]
+    generalize hv : verifyAndExtend cfg (if s.fragment_number = 1 then ⟨s.message_id, 0, []⟩ else st) s = ve
+    obtain ⟨st2, r⟩ := ve
+    have hn := verify_not_cks cfg (if s.fragment_number = 1 then ⟨s.message_id, 0, []⟩ else st) s a b
+    rw [hv] at hn
+    cases r with
+    | ok u => simp [afterVerify]
+    | err e => simp only [afterVerify]; simpa using hn
+    | panic q => simp [afterVerify]
+  · simp only [hm, Bool.false_eq_true, if_false]
+    by_cases hfr : s.isFragment = true
+    · simp only [hfr, if_true]
+      generalize hv : verifyAndExtend cfg st s = ve
+      obtain ⟨st2, r⟩ := ve
+      have hn := verify_not_cks cfg st s a b
+      rw [hv] at hn
+      cases r with
+      | ok u =>
+        simp only [afterVerify]
+        have := decodeInto_not_cks cfg dec { s with data := st2.data } a b hf
+        cases hd : decodeInto cfg dec { s with data := st2.data } with
+        | ok x => simp [Res.map]
+        | err e => simp only [Res.map]; intro h; apply this; rw [hd]; cases h; rfl
+        | panic q => simp [Res.map]
+      | err e => simp only [afterVerify]; simpa using hn
+      | panic q => simp [afterVerify]
+    · simp only [hfr, Bool.false_eq_true, if_false]
+      have := decodeInto_not_cks cfg dec s a b hf
+      cases hd : decodeInto cfg dec s with
+      | ok x => simp [Res.map]
+      | err e => simp only [Res.map]; intro h; apply this; rw [hd]; cases h; rfl
+      | panic q => simp [Res.map]
+
+/-- **A Checksum error is returned only for a well-formed line whose two values differ** — so when
+    they agree the line is never rejected with a checksum error — and it leaves the state untouched. -/
+theorem checksum_error_only_on_mismatch (cfg : Cfg) (st : PState) (line : Bytes) (dec : Bool) (e f : Nat)
+    (h : (step cfg st line dec).2 = err (.checksum e f)) :
+    ∃ raw s, parseNmeaSentence cfg line = ok (raw, s, e) ∧ f = (xorAll raw).toNat ∧ e ≠ f ∧
+      (step cfg st line dec).1 = st := by
+  unfold step at h ⊢
+  cases hp : parseNmeaSentence cfg line with
+  | err x =>
+    rw [hp] at h; simp only [] at h
+    exfalso
+    have := (cl_parseNmeaSentence cfg line).2 e f
+    apply this; rw [hp]; cases h; rfl
+  | panic p => rw [hp] at h; simp only [] at h; cases h
+  | ok r =>
+    obtain ⟨raw, s, cks⟩ := r
+    rw [hp] at h
+    simp only [] at h ⊢
+    unfold checkChecksum at h ⊢
+    by_cases hc : cks ≠ (xorAll raw).toNat
+    · rw [if_pos hc] at h ⊢; simp only [] at h ⊢
+      cases h
+      exact ⟨raw, s, rfl, rfl, hc, by first | rfl | trivial⟩
+    · rw [if_neg hc] at h
+      simp only [] at h
+      exfalso
+      have hf : s.fill_bit_count ≤ 5 := by
+        have o := parseNmeaSentence_ok hp
+        obtain ⟨b, hwf, _, hs, _⟩ := parseAisSentence_ok o.body
+        subst hs
+        have := hwf.fill.2.2
+        show decVal b.fill ≤ 5
+        omega
+      exact stepSentence_not_cks cfg st s dec e f hf h
 
 end AisVerif.C02
